@@ -77,6 +77,25 @@ pub fn gen_pkey(ktype: &str, rng: &mut Rng) -> PKey<Private> {
 	}
 }
 
+/// OpenSSL 3.0 does not read PKCS#8 v2 (RFC 5958) Ed25519 keys as ring writes them: rebuild the v1 form
+/// from the seed found by the harness's own DER reader.
+pub fn pkey_from_pkcs8_any(der: &[u8]) -> Option<PKey<Private>> {
+	if let Ok(k) = PKey::private_key_from_der(der) {
+		return Some(k);
+	}
+	let _ = openssl::error::ErrorStack::get();
+	let mut r = Reader::lenient();
+	let t = r.single(der, "p8").ok()?;
+	let ch = r.children(&t, "p8").ok()?;
+	if ch.len() < 3 {
+		return None;
+	}
+	let inner = r.single(ch[2].content, "seed").ok()?;
+	let mut v1 = crate::der::unhex("302e020100300506032b657004220420");
+	v1.extend_from_slice(inner.content);
+	PKey::private_key_from_der(&v1).ok()
+}
+
 pub fn raw_pub_of_spki(spki: &[u8]) -> Vec<u8> {
 	let mut r = Reader::new();
 	let t = r.single(spki, "spki").unwrap();
